@@ -83,6 +83,21 @@ KEYS = ['k0', 'k1', 'k2', 'k3', 'k4', 'k5', 'k6', 'k7']
 KEYS_B = ['m0', 'm1', 'm2', 'm3', 'm4', 'm5', 'm6', 'm7']
 
 
+_exhausted = 0
+
+
+def exhausted_count():
+    return _exhausted
+
+
+def _exhausted_carrier():
+    """the code under analysis drew more random numbers than the harness supplied: the path is dropped, but counted - a condition with
+    dropped paths is reported as a harness error (its carrier is too small), never as discharged"""
+    global _exhausted
+    _exhausted += 1
+    assume(False)
+
+
 class Rng:
     """Input carrier standing for "every random state".
 
@@ -100,7 +115,8 @@ class Rng:
         self.log = []
 
     def _next_sel(self, bound):
-        assume(len(self.sel) > 0)
+        if len(self.sel) == 0:
+            _exhausted_carrier()
         r = self.sel.pop(0)
         assume(0 <= r)
         assume(r < bound)
@@ -131,17 +147,20 @@ class Rng:
         assert isinstance(a, int) or hasattr(a, '__index__'), a
         self.log.append(('choice', size, replace))
         if size is None:
-            assume(len(self.choices) > 0)
+            if len(self.choices) == 0:
+                _exhausted_carrier()
             c = self.choices.pop(0)
             assume(0 <= c)
             assume(c < a)
-            return _NpInt(c)
+            return _NpInt(_concretise(c, a))
         out = []
         for _ in range(size):
-            assume(len(self.choices) > 0)
+            if len(self.choices) == 0:
+                _exhausted_carrier()
             c = self.choices.pop(0)
             assume(0 <= c)
             assume(c < a)
+            c = _concretise(c, a)
             if not replace:
                 for o in out:
                     assume(o != c)
@@ -151,6 +170,15 @@ class Rng:
             return np_shim.ndarray(out)
         import numpy
         return numpy.array(out, dtype=numpy.int64)
+
+
+def _concretise(c, bound):
+    """elementary selection: returns the concrete int equal to the (symbolic) c in [0, bound); the solver still chooses the value (one
+    path per value), but no symbolic integer flows into the code under analysis, where every later comparison would fork again"""
+    k = 0
+    while k < bound - 1 and k != c:
+        k += 1
+    return k
 
 
 def _NpInt(c):
